@@ -43,13 +43,23 @@ def main():
     for f in os.listdir(out):
         if f not in ("prompt.txt", "property.txt") and os.path.isfile(os.path.join(out, f)) and os.path.getsize(os.path.join(out, f)) < 200000:
             shutil.copy(os.path.join(out, f), dst)
-    # 3. our checks against /repo with the change applied
-    st = sh("git -C /repo status --porcelain --untracked-files=no")
+    # 3. our checks against /repo with the change applied (or, with SEEDED_EVAL_SCRATCH=1, against a fresh scratch worktree of
+    #    /repo's HEAD with its own build directory, so that other checks can use /repo at the same time)
+    scratch = os.environ.get("SEEDED_EVAL_SCRATCH") == "1"
+    target = "/repo"
+    if scratch:
+        target = "/tmp/seedeval/%s" % sid
+        sh("git -C /repo worktree remove --force %s" % target)
+        sh("mkdir -p /tmp/seedeval && git -C /repo worktree add --detach %s HEAD" % target)
+        os.environ["VERIF_REPO"] = target
+        os.environ["VERIF_BUILD"] = "/tmp/seedeval/%s_build" % sid
+        meta["evaluated_in"] = "scratch worktree of /repo HEAD (VERIF_REPO/VERIF_BUILD)"
+    st = sh("git -C %s status --porcelain --untracked-files=no" % target)
     if st.stdout.strip():
-        print("refusing: /repo has local modifications")
+        print("refusing: %s has local modifications" % target)
         return 2
     try:
-        a = sh("git -C /repo apply %s" % patch)
+        a = sh("git -C %s apply %s" % (target, patch))
         if a.returncode:
             print("patch does not apply to /repo:", a.stdout)
             meta["applies_to_repo"] = False
@@ -63,7 +73,10 @@ def main():
                 meta["ran"].append({"cmd": "./check %s --tier quick" % c, "verdict": verdict, "wall_s": round(time.time() - t0, 1), "output": lines[:8]})
                 print(c, verdict, lines[:3], flush=True)
     finally:
-        sh("git -C /repo checkout -- .")
+        if scratch:
+            sh("git -C /repo worktree remove --force %s; rm -rf /tmp/seedeval/%s_build" % (target, sid))
+        else:
+            sh("git -C /repo checkout -- .")
     notes = os.path.join(out, "NOTES.md")
     meta["needs_to_manifest"] = open(notes).read()[:1500] if os.path.exists(notes) else ""
     json.dump(meta, open(os.path.join(dst, "meta.json"), "w"), indent=1)
